@@ -480,8 +480,21 @@ def gen_desc_protected(rng, depth=1):
     if r < 0.3: return d_protected(None, D_EMPTY_HEADER)
     return d_protected(None, gen_desc_header(rng, depth))
 
+WIRE_PROTS = None
+def wire_protected(rng):
+    """a protected header as obtained by DECODING: retained (mostly non-canonical) bytes plus the header they parse to"""
+    global WIRE_PROTS
+    if WIRE_PROTS is None:
+        WIRE_PROTS = [(b"", D_EMPTY_HEADER), (b"\xa0", D_EMPTY_HEADER), (b"\xbf\xff", D_EMPTY_HEADER), (b"\xb8\x00", D_EMPTY_HEADER),
+                      (b"\xbf\x01\x26\xff", d_header(alg=d_reg(1, -7))), (b"\xa1\x18\x01\x38\x06", d_header(alg=d_reg(1, -7))),
+                      (b"\xa2\x04\x41\x6b\x01\x26", d_header(alg=d_reg(1, -7), kid=b"k")),
+                      (b"\xa2\x18\x63\x01\x04\x5f\x41\x6b\xff", d_header(kid=b"k", rest=[(I(99), I(1))]))]
+    pb, h = rng.choice(WIRE_PROTS)
+    return d_protected(pb, h)
+
 def gen_desc_signature(rng, depth=0):
-    return d_signature(gen_desc_protected(rng, depth), gen_desc_header(rng, depth), rbytes(rng))
+    p = wire_protected(rng) if rng.random() < 0.3 else gen_desc_protected(rng, depth)
+    return d_signature(p, gen_desc_header(rng, depth), rbytes(rng))
 
 def gen_desc_recipient(rng, depth=1):
     rs = [gen_desc_recipient(rng, depth - 1) for _ in range(rng.choice([0, 0, 1, 2]))] if depth > 0 else []
